@@ -259,6 +259,8 @@ func checkMain(repo, verif string, args []string) int {
 		}
 	}
 
+	allDead, deadReturns := deadFunctions(obls)
+	failed = append(failed, allDead...)
 	// ---- baseline: every obligation discharged on the reference tree must still be generated
 	basePath := filepath.Join(verif, "baseline", *prop+".txt")
 	var missing []string
@@ -315,7 +317,9 @@ func checkMain(repo, verif string, args []string) int {
 			"solver_status": o.Result.Status, "solver": o.Result.Solver, "tried": o.Result.Tried,
 			"model": o.Result.Model, "solver_output": o.Result.Output,
 		}
-		if o.MustFail {
+		if o.Kind == "cover-return" {
+			detail["explanation"] = "no return statement of the function is reachable under its contract: the preconditions, invariants or callee contracts are contradictory"
+		} else if o.MustFail {
 			detail["explanation"] = "vacuity/cover probe refuted: the assumptions in force at this point are contradictory (a contract or invariant excludes every execution)"
 		} else if o.Result.Status == "sat" {
 			detail["explanation"] = "the solver found values for which the obligation does not hold (model attached; values are those of the function's inputs, logical variables and DefaultRoundingMode)"
@@ -387,6 +391,7 @@ func checkMain(repo, verif string, args []string) int {
 		"bounded_standins":         meta.Bounded,
 		"known_findings_printed":   knownPrinted,
 		"baseline_missing":         missing,
+		"unreachable_returns":      deadReturns,
 		"samples":                  samples,
 		"explanation":              "contract-based deductive verification: weakest-precondition style VCs generated from go/ssa of the current working tree, discharged by SMT solvers; see DESIGN.md",
 		"evaluations":              nObl + nProbe,
